@@ -756,6 +756,10 @@ class Executor:
                     return z3.IntVal(len(t.items))
                 if isinstance(t, z3.ExprRef) and z3.is_string(t):
                     return z3.Length(t)
+                if isinstance(t, FnItem):
+                    m = re.search(r'&\[.*; (\d+)\]\}?$', t.name)
+                    if m:
+                        return z3.IntVal(int(m.group(1)))       # reference to a static array of known length
                 raise MirUnsupported('PtrMetadata of %r' % (t,))
         if k == 'discriminant':
             v = self.read_place(path, frame, rv.a)
@@ -1306,6 +1310,8 @@ class Executor:
                 res.append(o[1])
             elif kind == 'running':
                 res.append(o[1])
+            elif kind == 'multi':
+                res.extend(o[1])
             else:
                 raise MirUnsupported('contract outcome ' + kind)
         return res
